@@ -1464,6 +1464,53 @@ XPath::getMatchScore(
 
 
 
+XPath::eMatchScore
+XPath::getMatchScore(
+            XalanNode*              node,
+            const PrefixResolver&   resolver,
+            XPathExecutionContext&  executionContext,
+            XalanSize_t             theAlternative) const
+{
+    assert(node != 0);
+
+    if(m_expression.getOpCodeMapValue(0) != XPathExpression::eOP_MATCHPATTERN)
+    {
+        // Let the general function report the problem...
+        return getMatchScore(node, resolver, executionContext);
+    }
+    else
+    {
+        const PrefixResolver* const     theCurrentResolver =
+            executionContext.getPrefixResolver();
+
+        // Push and pop the PrefixResolver...
+        const PrefixResolverSetAndRestore   theSetAndRestore(
+                                                executionContext,
+                                                theCurrentResolver,
+                                                &resolver);
+
+        OpCodeMapPositionType   opPos =
+            m_expression.getInitialOpCodePosition() + 2;
+
+        // Skip the alternatives before the one requested...
+        for (XalanSize_t i = 0;
+                m_expression.getOpCodeMapValue(opPos) == XPathExpression::eOP_LOCATIONPATHPATTERN;
+                    ++i)
+        {
+            if (i == theAlternative)
+            {
+                return locationPathPattern(executionContext, *node, opPos);
+            }
+
+            opPos = m_expression.getNextOpCodePosition(opPos);
+        }
+
+        return eMatchScoreNone;
+    }
+}
+
+
+
 inline const XalanDOMString*
 getStringFromTokenQueue(
             const XPathExpression&          expression,
